@@ -274,7 +274,7 @@ def gen_deep_c02(seed: int, s: int, w: int, tier: str) -> dict:
     the chain); y0's ID is quadratic and worse when line 4 splits a long chain into one sub-problem per node, which
     is slow but not wrong, and no business of this check."""
     rng = random.Random(f"{seed}:C02:{s}")
-    g = world.gen_chain_graph(rng, rng.choice((300, 700, 1000)))
+    g = world.gen_chain_graph(rng, rng.choice((300, 700, 1000)), shortcuts=False)
     n = len(g["nodes"]) - 3
     qs = [{"g": 0, "X": ["X"], "Y": ["Y"]}, {"g": 0, "X": [f"K{n - 1}"], "Y": ["Y"]}, {"g": 0, "X": [f"K{n - 1}"], "Y": ["X"]}]
     rng.shuffle(qs)
